@@ -44,7 +44,7 @@ template <integral Int, from_integer_options Options = from_integer_options{}>
 
     bool isNegative = false;
     if constexpr (is_signed_v<Int>) {
-        if (num < 0 and base == 10) {
+        if (num < 0) {
             if (length == 0) {
                 return {.end = nullptr, .error = from_integer_error::overflow};
             }
